@@ -2225,11 +2225,15 @@ class Parameters:
                     with _syncing(self_.self, (pname,)):
                         self_.update({pname: new_obj})
             else:
-                with _syncing(self_.self, (pname,)):
-                    try:
-                        self_.update({pname: await awaitable})
-                    except Skip:
-                        pass
+                # Await outside of the syncing scope: an assignment made
+                # while the result is pending is an override, not a sync.
+                try:
+                    new_obj = await awaitable
+                except Skip:
+                    pass
+                else:
+                    with _syncing(self_.self, (pname,)):
+                        self_.update({pname: new_obj})
         finally:
             # Ensure we clean up but only if the task matches the currrent task
             if self_.self._param__private.async_refs.get(pname) is current_task:
